@@ -2,6 +2,8 @@ import Driver.CronEngine
 import Driver.QueueEngine
 import Driver.SchedEngine
 import Driver.RetryEngine
+import Driver.JobsEngine
+import Driver.LoggerEngine
 /-! `qmodel`: one operation per input line, one answer per output line. -/
 namespace Driver
 
@@ -9,6 +11,7 @@ structure State where
   cron : CronState := {}
   queue : Queue.Arr := #[]
   sched : SchedSt := {}
+  jobs : JobsSt := {}
 
 def step (st : State) (line : String) : State × String :=
   match words line with
@@ -16,6 +19,8 @@ def step (st : State) (line : String) : State × String :=
   | "queue" :: ws => let (q, out) := queueStep st.queue ws; ({ st with queue := q }, out)
   | "sched" :: ws => let (q, out) := schedStep st.sched ws; ({ st with sched := q }, out)
   | "retry" :: ws => (st, (retryStep () ws).2)
+  | "jobs" :: ws => let (j, out) := jobsStep st.jobs ws; ({ st with jobs := j }, out)
+  | "logger" :: ws => (st, loggerStep ws)
   | _ => (st, "bad-op")
 
 partial def loop (hin hout : IO.FS.Stream) (st : State) : IO Unit := do
